@@ -16,6 +16,9 @@ sys.path.insert(0, HERE)
 from pydlsa import udiff          # noqa: E402
 
 
+INSERTIONS = []
+
+
 def pairs_from(first):
     out = []
     for f in sorted(glob.glob(os.path.join(HERE, 'planned-fixes', '*.patch'))):
@@ -41,9 +44,35 @@ def pairs_from(first):
     return out
 
 
+def insertions_from(first):
+    """(line before, [inserted lines], line after) for the pure insertions of the fix patches."""
+    out = []
+    for f in sorted(glob.glob(os.path.join(HERE, 'planned-fixes', '*.patch'))):
+        m = re.match(r'(\d+)-', os.path.basename(f))
+        if not m or int(m.group(1)) < first:
+            continue
+        lines = open(f).read().split('\n')
+        for i in range(1, len(lines)):
+            if lines[i].startswith('+') and not lines[i].startswith('+++') and lines[i - 1].startswith(' '):
+                j = i
+                while j < len(lines) and lines[j].startswith('+'):
+                    j += 1
+                if j < len(lines) and lines[j].startswith(' '):
+                    out.append((lines[i - 1][1:], [l[1:] for l in lines[i:j]], lines[j][1:]))
+    return out
+
+
 def rewrite(text, pairs):
     lines = text.split('\n')
     changed = 0
+    for before, ins, after in INSERTIONS:
+        k = 0
+        while k + 1 < len(lines):
+            if lines[k][:1] == ' ' and lines[k + 1][:1] in (' ', '-') and lines[k][1:] == before and lines[k + 1][1:] == after:
+                lines[k + 1:k + 1] = [' ' + x for x in ins]
+                changed += 1
+                k += len(ins)
+            k += 1
     for olds, news in pairs:
         if len(olds) == len(news):
             for o, n in zip(olds, news):
@@ -107,6 +136,8 @@ def applies(text):
 def main():
     first = int(sys.argv[1])
     pairs = pairs_from(first)
+    global INSERTIONS
+    INSERTIONS = insertions_from(first)
     for p in sys.argv[2:]:
         text = open(p).read()
         ok, why = applies(text)
